@@ -79,6 +79,8 @@ class ResolvePortRefs(ElabPass):
         for inst in instancelike:
             # Populate the module-level set of PortRefs
             for portref in inst._refs.portrefs.values():
+                if self.is_dead_end(portref):
+                    continue
                 module_portrefs.add(portref)
 
             # FIXME: add the `NoConn`s here, although it's not clear we *really* need these checks on them
@@ -252,6 +254,16 @@ class ResolvePortRefs(ElabPass):
             return BundleInstance(of=port.of, port=False, role=None)
 
         self.fail(f"Invalid Port Type `{port}`")
+
+    def is_dead_end(self, portref: PortRef) -> bool:
+        """Boolean indication of whether `portref` is a reference nothing uses (any more) to a port that does not exist.
+        Instances hand out - and remember - a reference for every attribute asked of them, including misspelt ones
+        which were since replaced, and those of `hasattr` probes. Such references are not part of the design."""
+        if connected_ports(portref):
+            return False
+        if getattr(portref, "_slices", None) or getattr(portref, "_concats", None):
+            return False
+        return portref.portname not in io_for_resolving(portref.inst.of)
 
     def handle_noconn(self, module: Module, group: List[Connectable]):
         """Handle a group with a `NoConn`."""
